@@ -24,7 +24,7 @@ MANIFEST = {
             "point, the elementwise lift sums over all entries, a chain's log-det is the sum of the layers' log-dets at the running intermediate "
             "values (= ln|(f_n o ... o f_1)'| for rank 0), triangular maps report ln|prod diag|. The multivariate chain rule (Jacobian of a "
             "composite = product) is cited, not proved: the compositional statement for rank >= 1 is named _partial. The model is tied to /repo by "
-            "running its extraction next to the real *_and_log_det methods; flows/combinators are covered by the autodiff oracle only.",
+            "running its extraction next to the real *_and_log_det methods; further property files: X01_bij.v (log-det laws for every combinator tree), X01_autoreg.v (real MaskedAutoregressive / Coupling layers with the concrete masked conditioner), X02_bnaf.v (the log-det BlockAutoregressiveNetwork reports = ln|det J| for every raw weight / depth / block size), InvFunP (rank-0 Invert law by a local inverse function theorem); whole flows are covered by the autodiff oracle only.",
     "note": "Trusted: Coq kernel + Reals/Coquelicot (+ MathComp choice if det_trig is used) axioms as printed in the evidence, extraction, OCaml libm, "
             "harness, jax autodiff as the oracle's reference. Exact over R; float rounding not modelled.",
 }
